@@ -12,8 +12,24 @@ const fixtureMod = "bifrostverify/fixtures/bad"
 // RunControls loads the checker's own fixture package and requires every rule engine to fire on the broken
 // function and to stay silent on its correct twin. A failed control makes the run fail (a rule that cannot
 // fire proves nothing).
-func (c *Check) RunControls(checkerDir string) {
-	fp, err := LoadMod(checkerDir, "bifrostverify/fixtures", "./fixtures/bad")
+type fixtureLoad struct {
+	p   *Prog
+	err error
+}
+
+// PreloadFixtures starts loading the fixture package concurrently with the repository load.
+func PreloadFixtures(checkerDir string) <-chan fixtureLoad {
+	ch := make(chan fixtureLoad, 1)
+	go func() {
+		p, err := LoadMod(checkerDir, "bifrostverify/fixtures", "./fixtures/bad")
+		ch <- fixtureLoad{p, err}
+	}()
+	return ch
+}
+
+func (c *Check) RunControls(pre <-chan fixtureLoad) {
+	fl := <-pre
+	fp, err := fl.p, fl.err
 	if err != nil {
 		c.Undecided("CONTROL", "positive controls load", nil, "fixtures do not load: "+err.Error())
 		return
